@@ -37,7 +37,7 @@ class Ctx:
         if profile not in self._progs:
             if profile not in _PROCESS_CACHE:
                 facts = extract(profile)
-                _PROCESS_CACHE[profile] = (Program(facts).inlined_view(), facts["_meta"], len(facts["bodies"]))
+                _PROCESS_CACHE[profile] = (Program(facts), facts["_meta"], len(facts["bodies"]))
             prog, meta, nb = _PROCESS_CACHE[profile]
             self._progs[profile] = prog
             self.configs.append({"profile": profile, "bodies": nb, "tree_hash": meta["tree_hash"][:16],
